@@ -137,51 +137,65 @@ theorem exactSum_replicate_ff (k : Nat) : exactSum (List.replicate (2 * k) 255) 
     simp only [exactSum]
     rw [ih]; omega
 
-/-- ICMPv4 echo request, ID = Seq = 0xffff, 131070 data bytes 0xff: 131078 bytes, checksum field zero. -/
-def wrapWitness : List Nat := [8, 0, 0, 0, 255, 255, 255, 255] ++ List.replicate (2 * 65535) 255
+theorem checksum_eq (b : List Nat) : checksum b = 65535 - fold16 (exactSum b % 4294967296) := by
+  unfold checksum
+  rw [sumWords_mod _ _ (by decide), Nat.zero_add]
 
-theorem wrapWitness_sum : exactSum wrapWitness = 4294967296 + 7 := by
-  have : wrapWitness = [8, 0, 0, 0, 255, 255, 255, 255] ++ List.replicate (2 * 65535) 255 := rfl
-  rw [this, exactSum_append _ _ (by decide), exactSum_replicate_ff]
-  simp [exactSum]
+/-- ICMPv4 echo request with ID = Seq = 0xffff and data `d`, checksum field zero. -/
+def echoFF (d : List Nat) : List Nat := 8 :: 0 :: 0 :: 0 :: 255 :: 255 :: 255 :: 255 :: d
 
-/-- On the witness (2 bytes past the bound) the 32-bit accumulator wraps: `checksum` returns 0xfff8 and
-the message with that checksum inserted is NOT valid (its word sum is ≡ 1 mod 0xffff). -/
+/-- Generic form of the witness: any data whose word sum is 65535·65535 (e.g. 131070 bytes 0xff). -/
+theorem wrap_generic (d : List Nat) (hsum : exactSum d = 65535 * 65535) :
+    checksum (echoFF d) = 65528 ∧ ¬ Valid1071 (xorCsumAt (echoFF d) 2 (checksum (echoFF d))) := by
+  have hS : exactSum (echoFF d) = 4294967296 + 7 := by
+    simp only [echoFF, exactSum, hsum]
+  have hc : checksum (echoFF d) = 65528 := by
+    rw [checksum_eq, hS]
+    have h : (4294967296 + 7) % 4294967296 = 7 := by omega
+    rw [h]
+    have hf := fold16_spec 7 (by omega)
+    generalize fold16 7 = f at *
+    omega
+  refine ⟨hc, ?_⟩
+  rw [hc]
+  unfold echoFF
+  rw [xorCsumAt_hdr]
+  unfold Valid1071
+  simp only [exactSum, hsum]
+  omega
+
+/-- The witness data: 131070 bytes 0xff. -/
+def wrapData : List Nat := List.replicate (2 * 65535) 255
+
+theorem wrapData_sum : exactSum wrapData = 65535 * 65535 := exactSum_replicate_ff 65535
+
+theorem wrapData_wf : BytesWF wrapData := by
+  intro b hb
+  have hb' : b ∈ List.replicate (2 * 65535) 255 := hb
+  rw [List.mem_replicate] at hb'
+  omega
+
+theorem wrapData_length : wrapData.length = 131070 := by
+  show (List.replicate (2 * 65535) 255).length = 131070
+  rw [List.length_replicate]
+
+/-- ICMPv4 echo request, ID = Seq = 0xffff, 131070 data bytes 0xff: 131078 bytes — 2 bytes past the
+bound of `checksum_rfc1071`. -/
+def wrapWitness : List Nat := echoFF wrapData
+
+/-- On the witness the 32-bit accumulator wraps: `checksum` returns 0xfff8 and the message with that
+checksum inserted is NOT valid (its word sum is ≡ 1 mod 0xffff). -/
 theorem checksum_wrap_witness :
     wrapWitness.length = 131078 ∧ BytesWF wrapWitness ∧ checksum wrapWitness = 65528 ∧
     ¬ Valid1071 (xorCsumAt wrapWitness 2 (checksum wrapWitness)) := by
-  have hlen : wrapWitness.length = 131078 := by
-    show ([8, 0, 0, 0, 255, 255, 255, 255] ++ List.replicate (2 * 65535) 255).length = 131078
-    rw [List.length_append, List.length_replicate]
-    rfl
-  have hwf : BytesWF wrapWitness := by
-    intro b hb
-    have hb' : b ∈ [8, 0, 0, 0, 255, 255, 255, 255] ++ List.replicate (2 * 65535) 255 := hb
-    rw [List.mem_append, List.mem_replicate] at hb'
-    rcases hb' with h | h
-    · have : ∀ x ∈ [8, 0, 0, 0, 255, 255, 255, 255], x < 256 := by decide
-      exact this b h
-    · omega
-  have hc : checksum wrapWitness = 65528 := by
-    unfold checksum
-    rw [sumWords_mod _ _ (by decide), wrapWitness_sum]
-    have h : (0 + (4294967296 + 7)) % 4294967296 = 7 := by omega
-    rw [h]
-    have := fold16_spec 7 (by omega)
-    omega
-  refine ⟨hlen, hwf, hc, ?_⟩
-  rw [hc]
-  have hw : wrapWitness = 8 :: 0 :: 0 :: 0 :: ([255, 255, 255, 255] ++ List.replicate (2 * 65535) 255) := rfl
-  rw [hw, xorCsumAt_hdr]
-  have hsh : (8 :: 0 :: (65528 % 256) :: (65528 / 256 % 256) :: ([255, 255, 255, 255] ++ List.replicate (2 * 65535) 255))
-      = [8, 0, 65528 % 256, 65528 / 256 % 256, 255, 255, 255, 255] ++ List.replicate (2 * 65535) 255 := rfl
-  rw [hsh]
-  unfold Valid1071
-  rw [exactSum_append _ _ (by rfl), exactSum_replicate_ff]
-  have hs : exactSum [8, 0, 65528 % 256, 65528 / 256 % 256, 255, 255, 255, 255] = 8 + 65528 + 65535 + 65535 := by
-    decide
-  rw [hs]
-  omega
+  refine ⟨?_, ?_, (wrap_generic wrapData wrapData_sum).1, (wrap_generic wrapData wrapData_sum).2⟩
+  · show (8 :: 0 :: 0 :: 0 :: 255 :: 255 :: 255 :: 255 :: wrapData).length = 131078
+    simp only [List.length_cons, wrapData_length]
+  · intro b hb
+    have hb' : b ∈ 8 :: 0 :: 0 :: 0 :: 255 :: 255 :: 255 :: 255 :: wrapData := hb
+    simp only [List.mem_cons] at hb'
+    rcases hb' with h | h | h | h | h | h | h | h | h
+    all_goals first | omega | exact wrapData_wf b h
 
 /-! ### Part B: shape of `Message.Marshal` -/
 
@@ -221,10 +235,9 @@ theorem marshal_v4_checksum_valid (m : Msg) (hp : m.proto = protocolICMP) (ht : 
   have hpre : BytesWF ([m.typ % 256, u8 m.code] ++ 0 :: 0 :: mb) := by
     intro b hbm
     simp at hbm
-    rcases hbm with h | h | h | h | h
+    rcases hbm with h | h | h | h
     · rw [h]; exact Nat.mod_lt _ (by decide)
     · rw [h]; exact hu
-    · rw [h]; decide
     · rw [h]; decide
     · exact hwf b h
   unfold Msg.marshal at hw
@@ -239,51 +252,49 @@ theorem marshal_v4_checksum_valid (m : Msg) (hp : m.proto = protocolICMP) (ht : 
   subst hw
   have hl : ([m.typ % 256, u8 m.code] ++ 0 :: 0 :: mb).length ≤ 131076 := by
     simpa [xorCsumAt] using hlen
-  exact checksum_rfc1071 [m.typ % 256, u8 m.code] mb (by rfl) hpre hl
+  exact checksum_rfc1071 [m.typ % 256, u8 m.code] mb (by simp) hpre hl
 
 /-- The full statement "ICMPv4 output always carries a valid checksum" over ALL body sizes. -/
 def ChecksumStatement : Prop :=
   ∀ (m : Msg) (mb wire : List Nat), m.proto = protocolICMP → m.typ < 256 → bodyBytes m = some mb →
     BytesWF mb → m.marshal none = some wire → Valid1071 wire
 
-/-- The witness as a message: echo request, ID = Seq = 65535, 131070 bytes of 0xff. -/
-def wrapMsg : Msg :=
-  { proto := protocolICMP, typ := v4Echo, code := 0, cksum := 0,
-    body := .echo 65535 65535 (List.replicate (2 * 65535) 255) }
-
 theorem echo_bodyBytes (proto typ : Nat) (code : Int) (ck : Nat) (id seq : Int) (d : List Nat) :
     bodyBytes ⟨proto, typ, code, ck, .echo id seq d⟩ = some (be16 id ++ be16 seq ++ d) := by
   unfold bodyBytes
   simp [Body.len, Body.marshal]
 
-theorem wrapMsg_body : bodyBytes wrapMsg = some ([255, 255, 255, 255] ++ List.replicate (2 * 65535) 255) := by
-  unfold wrapMsg
+/-- The witness as a message: echo request, ID = Seq = 65535, data `d`. -/
+def echoFFMsg (d : List Nat) : Msg :=
+  { proto := protocolICMP, typ := v4Echo, code := 0, cksum := 0, body := .echo 65535 65535 d }
+
+theorem echoFFMsg_body (d : List Nat) : bodyBytes (echoFFMsg d) = some (255 :: 255 :: 255 :: 255 :: d) := by
+  unfold echoFFMsg
   rw [echo_bodyBytes]
   have h : be16 65535 = [255, 255] := by decide
   rw [h]
   rfl
 
+theorem echoFFMsg_marshal (d : List Nat) :
+    (echoFFMsg d).marshal none = some (xorCsumAt (echoFF d) 2 (checksum (echoFF d))) := by
+  rw [marshal_v4 (echoFFMsg d) rfl _ (echoFFMsg_body d)]
+  have e2 : (echoFFMsg d).typ % 256 = 8 ∧ u8 (echoFFMsg d).code = 0 := by
+    constructor <;> rfl
+  rw [e2.1, e2.2]
+  unfold echoFF
+  rw [xorCsumAt_hdr]
+  rfl
+
 /-- **The statement is false beyond the accumulator bound** (literal reading: all body sizes). -/
 theorem checksum_full_false : ¬ ChecksumStatement := by
   intro h
-  have hb := wrapMsg_body
-  have hm := marshal_v4 wrapMsg rfl _ hb
-  have hwf : BytesWF ([255, 255, 255, 255] ++ List.replicate (2 * 65535) 255) := by
-    intro b hbm
-    rw [List.mem_append, List.mem_replicate] at hbm
-    rcases hbm with h | h
-    · have : ∀ x ∈ [255, 255, 255, 255], x < 256 := by decide
-      exact this b h
-    · omega
-  have := h wrapMsg _ _ rfl (by decide) hb hwf hm
-  obtain ⟨_, _, hc, hnv⟩ := checksum_wrap_witness
-  apply hnv
-  have hw : wrapWitness = 8 :: 0 :: 0 :: 0 :: ([255, 255, 255, 255] ++ List.replicate (2 * 65535) 255) := rfl
-  rw [hw, xorCsumAt_hdr]
-  have e2 : wrapMsg.typ % 256 = 8 ∧ u8 wrapMsg.code = 0 := by
-    constructor <;> decide
-  rw [e2.1, e2.2] at this
-  exact this
+  have hwf : BytesWF (255 :: 255 :: 255 :: 255 :: wrapData) := by
+    intro b hb
+    simp only [List.mem_cons] at hb
+    rcases hb with h | h | h | h | h
+    all_goals first | omega | exact wrapData_wf b h
+  have hv := h (echoFFMsg wrapData) _ _ rfl (by decide) (echoFFMsg_body wrapData) hwf (echoFFMsg_marshal wrapData)
+  exact (wrap_generic wrapData wrapData_sum).2 hv
 
 /-- … and it holds on the excluded region's complement (decidable predicate: `wire.length ≤ 131076`). -/
 theorem checksum_holds_partial :
@@ -480,6 +491,229 @@ theorem raw_roundtrip (proto typ : Nat) (hp : proto = protocolICMP ∨ proto = p
     simp [Body.len, Body.marshal]
   · unfold parseBody
     rw [hk]
+
+/-! ### Part D: RFC 4884 multipart bodies -/
+
+/-- `multipartMessageOrigDatagramLen`: at least 128, covers the datagram, aligned to 4 (ICMPv4) or
+8 (ICMPv6) octets once past 128, with less than one unit of padding. -/
+theorem origDatagramLen_spec (n : Nat) :
+    (128 ≤ origDatagramLen protocolICMP n ∧ n ≤ origDatagramLen protocolICMP n ∧
+     origDatagramLen protocolICMP n % 4 = 0 ∧ (128 ≤ n → origDatagramLen protocolICMP n < n + 4)) ∧
+    (128 ≤ origDatagramLen protocolIPv6ICMP n ∧ n ≤ origDatagramLen protocolIPv6ICMP n ∧
+     origDatagramLen protocolIPv6ICMP n % 8 = 0 ∧ (128 ≤ n → origDatagramLen protocolIPv6ICMP n < n + 8)) := by
+  unfold origDatagramLen
+  have h1 : ¬ (protocolIPv6ICMP = protocolICMP) := by decide
+  simp only [h1, if_false, if_true]
+  constructor <;> split <;> omega
+
+/-- Without extensions the body is the 4 leading octets plus the datagram, unpadded. -/
+theorem multipartLens_noext (proto : Nat) (w : Bool) (data : List Nat) :
+    multipartLens proto w data [] = (4 + data.length, data.length) := by
+  simp [multipartLens]
+
+/-- With extensions (`extLen > 0`): 4 leading octets, padded datagram, 4-octet extension header, objects. -/
+theorem multipartLens_ext (proto : Nat) (data : List Nat) (exts : List Ext)
+    (h : 0 < (exts.map (Ext.len proto)).sum) :
+    multipartLens proto true data exts =
+      (4 + 4 + origDatagramLen proto data.length + (exts.map (Ext.len proto)).sum,
+       origDatagramLen proto data.length) := by
+  unfold multipartLens
+  have : decide ((exts.map (Ext.len proto)).sum > 0) = true := by simpa using h
+  simp [this]
+
+theorem marshalMultipart_noext (proto : Nat) (w : Bool) (data : List Nat) :
+    marshalMultipart proto w data [] = zeros 4 ++ data := by
+  unfold marshalMultipart
+  rw [multipartLens_noext]
+  simp only [List.length_nil, Nat.lt_irrefl, if_false, gt_iff_lt]
+  have e1 : zeros (4 + data.length) = zeros 4 ++ zeros data.length ++ [] := by rw [zeros_add]; simp
+  have hl : (zeros 4).length = 4 := by simp [zeros]
+  have := copyAt_exact (zeros 4) (zeros data.length) data [] (by simp [zeros])
+  rw [hl] at this
+  rw [e1, this]; simp
+
+/-- The RFC 4884 compatibility heuristic: a body without extensions is re-read as "128 octets of
+datagram + extension structure" exactly when octet 128 onwards looks like an extension header. -/
+def legacyAmbiguous (data : List Nat) : Bool :=
+  decide (data.length ≥ 136) && validExtensionHeader (data.drop 128)
+
+theorem parseMultipart_noext (proto typ : Nat) (hx : isExtEchoRequest proto typ = false) (b0 b1 b2 b3 : Nat)
+    (hl : (if proto = protocolICMP then 4 * b1 else if proto = protocolIPv6ICMP then 8 * b0 else 0) = 0)
+    (data : List Nat) (hamb : legacyAmbiguous data = false) :
+    parseMultipart proto typ (b0 :: b1 :: b2 :: b3 :: data) = (data, []) := by
+  unfold parseMultipart
+  simp only [List.getD_cons_zero, List.getD_cons_succ, hl, List.length_cons, List.drop_succ_cons, List.drop_zero]
+  by_cases hd : data = []
+  · subst hd; simp
+  · have hne : ¬ (data.length + 1 + 1 + 1 + 1 = 4) := by
+      have : data.length ≠ 0 := fun h => hd (List.eq_nil_of_length_eq_zero h)
+      omega
+    simp only [hne, if_false]
+    have hpe : parseExtensions proto typ data 0 = none := by
+      unfold parseExtensions
+      simp only [hx, Bool.false_eq_true, if_false]
+      have h128 : (128 > 0 ∨ 0 + 8 > data.length) := Or.inl (by omega)
+      simp only [h128, if_true]
+      unfold legacyAmbiguous at hamb
+      by_cases hlen : 128 + 8 > data.length
+      · simp [hlen]
+      · have hge : data.length ≥ 136 := by omega
+        simp only [hge, decide_true, Bool.true_and] at hamb
+        simp [hlen, hamb]
+    rw [hpe]
+
+theorem kind_du_cases (proto typ : Nat) (h : parserKind proto typ = .du) :
+    (proto = protocolICMP ∧ typ = v4DstUnreach) ∨ (proto = protocolIPv6ICMP ∧ typ = v6DstUnreach) := by
+  unfold parserKind at h
+  (repeat' split at h) <;> simp_all
+
+theorem kind_te_cases (proto typ : Nat) (h : parserKind proto typ = .te) :
+    (proto = protocolICMP ∧ typ = v4TimeExceeded) ∨ (proto = protocolIPv6ICMP ∧ typ = v6TimeExceeded) := by
+  unfold parserKind at h
+  (repeat' split at h) <;> simp_all
+
+theorem kind_pp_cases (proto typ : Nat) (h : parserKind proto typ = .pp) :
+    (proto = protocolICMP ∧ typ = v4ParamProb) ∨ (proto = protocolIPv6ICMP ∧ typ = v6ParamProb) := by
+  unfold parserKind at h
+  (repeat' split at h) <;> simp_all
+
+theorem kind_not_xreq (proto typ : Nat) (h : parserKind proto typ = .du ∨ parserKind proto typ = .te ∨ parserKind proto typ = .pp) :
+    isExtEchoRequest proto typ = false := by
+  unfold parserKind at h
+  unfold isExtEchoRequest
+  simp only [protocolICMP, protocolIPv6ICMP, v4DstUnreach, v4TimeExceeded, v4ParamProb, v4Echo, v4EchoReply,
+    v4ExtEchoRequest, v4ExtEchoReply, v6DstUnreach, v6PacketTooBig, v6TimeExceeded, v6ParamProb, v6EchoRequest,
+    v6EchoReply, v6ExtEchoRequest, v6ExtEchoReply] at *
+  by_cases h1 : proto = 1
+  · subst h1
+    by_cases h2 : typ = 42
+    · subst h2; simp at h
+    · simp [h2]
+  · by_cases h2 : proto = 58
+    · subst h2
+      by_cases h3 : typ = 160
+      · subst h3; simp at h
+      · simp [h3]
+    · simp [h1, h2]
+
+/-- **Destination unreachable without extensions**, ICMPv4 and ICMPv6, every datagram size: exact
+round trip unless the datagram itself triggers the RFC 4884 compatibility heuristic. -/
+theorem dstUnreach_noext_roundtrip (proto typ : Nat) (ht : typ < 256) (hk : parserKind proto typ = .du)
+    (code : Int) (hc : 0 ≤ code ∧ code < 256) (data : List Nat) (hamb : legacyAmbiguous data = false) :
+    RoundTrips proto typ code (.dstUnreach data []) none := by
+  have hcases := kind_du_cases proto typ hk
+  have hp : proto = protocolICMP ∨ proto = protocolIPv6ICMP := by
+    rcases hcases with h | h
+    · exact Or.inl h.1
+    · exact Or.inr h.1
+  apply roundtrip_of proto typ hp ht code hc _ _ (zeros 4 ++ data)
+  · unfold bodyBytes mkMsg
+    simp only [Body.len, Body.marshal, multipartLens_noext, marshalMultipart_noext]
+    have hv : validExtensions proto (if proto = protocolICMP then v4DstUnreach else v6DstUnreach) [] = true := by
+      rcases hcases with ⟨h1, _⟩ | ⟨h1, _⟩ <;> subst h1 <;> decide
+    simp [hv]
+  · unfold parseBody
+    rw [hk]
+    have hz : zeros 4 ++ data = 0 :: 0 :: 0 :: 0 :: data := rfl
+    rw [hz, parseMultipart_noext proto typ (kind_not_xreq _ _ (Or.inl hk)) 0 0 0 0 (by simp) data hamb]
+    simp
+
+/-- **Time exceeded without extensions.** -/
+theorem timeExceeded_noext_roundtrip (proto typ : Nat) (ht : typ < 256) (hk : parserKind proto typ = .te)
+    (code : Int) (hc : 0 ≤ code ∧ code < 256) (data : List Nat) (hamb : legacyAmbiguous data = false) :
+    RoundTrips proto typ code (.timeExceeded data []) none := by
+  have hcases := kind_te_cases proto typ hk
+  have hp : proto = protocolICMP ∨ proto = protocolIPv6ICMP := by
+    rcases hcases with h | h
+    · exact Or.inl h.1
+    · exact Or.inr h.1
+  apply roundtrip_of proto typ hp ht code hc _ _ (zeros 4 ++ data)
+  · unfold bodyBytes mkMsg
+    simp only [Body.len, Body.marshal, multipartLens_noext, marshalMultipart_noext]
+    have hv : validExtensions proto (if proto = protocolICMP then v4TimeExceeded else v6TimeExceeded) [] = true := by
+      rcases hcases with ⟨h1, _⟩ | ⟨h1, _⟩ <;> subst h1 <;> decide
+    simp [hv]
+  · unfold parseBody
+    rw [hk]
+    have hz : zeros 4 ++ data = 0 :: 0 :: 0 :: 0 :: data := rfl
+    rw [hz, parseMultipart_noext proto typ (kind_not_xreq _ _ (Or.inr (Or.inl hk))) 0 0 0 0 (by simp) data hamb]
+    simp
+
+/-- **Parameter problem (ICMPv4) without extensions.** -/
+theorem paramProb_v4_noext_roundtrip (typ : Nat) (ht : typ < 256) (hk : parserKind protocolICMP typ = .pp)
+    (code ptr : Int) (hc : 0 ≤ code ∧ code < 256) (hptr : 0 ≤ ptr ∧ ptr < 256)
+    (data : List Nat) (hamb : legacyAmbiguous data = false) :
+    RoundTrips protocolICMP typ code (.paramProb ptr data []) none := by
+  apply roundtrip_of protocolICMP typ (Or.inl rfl) ht code hc _ _ (u8 ptr :: 0 :: 0 :: 0 :: data)
+  · unfold bodyBytes mkMsg
+    simp only [Body.len, Body.marshal, multipartLens_noext, marshalMultipart_noext]
+    simp [validExtensions, zeros]
+  · unfold parseBody
+    rw [hk]
+    rw [parseMultipart_noext protocolICMP typ (kind_not_xreq _ _ (Or.inr (Or.inr hk))) _ 0 0 0 (by simp) data hamb]
+    have := u8_id ptr hptr.1 hptr.2
+    have hne : ¬ (protocolICMP = protocolIPv6ICMP) := by decide
+    simp [hne, this]
+
+/-! #### regions where the unchanged code does not round-trip (concrete witnesses) -/
+
+/-- Body of `ParseMessage(Marshal(m))`. -/
+def roundBody (m : Msg) : Option Body :=
+  (m.marshal none).bind fun w => (parseMessage m.proto w).map (·.body)
+
+theorem roundBody_of_roundTrips (proto typ : Nat) (code : Int) (body : Body)
+    (h : RoundTrips proto typ code body none) : roundBody (mkMsg proto typ code body) = some body := by
+  obtain ⟨wire, hm, hp⟩ := h
+  unfold roundBody
+  rw [hm]
+  simp only [Option.bind_some, mkMsg]
+  cases hpm : parseMessage proto wire with
+  | none => simp [hpm] at hp
+  | some m => simp [hpm] at hp ⊢; exact hp.2.2.2
+
+/-- A 140-byte original datagram whose octets 128… are `20 00 00 00 | 00 08 09 09 01 02 03 04`. -/
+def legacyData : List Nat := zeros 128 ++ [32, 0, 0, 0, 0, 8, 9, 9, 1, 2, 3, 4]
+
+/-- **RFC 4884 compatibility heuristic**: a destination-unreachable message WITHOUT extensions whose
+datagram looks like an extension structure at octet 128 parses back with a 128-byte datagram and a
+phantom extension object. -/
+theorem legacy128_witness :
+    legacyAmbiguous legacyData = true ∧
+    roundBody (mkMsg protocolICMP v4DstUnreach 0 (.dstUnreach legacyData [])) =
+      some (.dstUnreach (zeros 128) [.raw [0, 8, 9, 9, 1, 2, 3, 4]]) := by
+  decide +kernel
+
+/-- The no-extension round trip as the property states it (all datagrams). -/
+def NoExtStatement : Prop :=
+  ∀ (data : List Nat), RoundTrips protocolICMP v4DstUnreach 0 (.dstUnreach data []) none
+
+theorem noext_full_false : ¬ NoExtStatement := by
+  intro h
+  have h1 := roundBody_of_roundTrips _ _ _ _ (h legacyData)
+  rw [legacy128_witness.2] at h1
+  exact absurd h1 (by decide +kernel)
+
+/-- … and holds outside the (decidable) ambiguous region. -/
+theorem noext_holds_partial (data : List Nat) (h : legacyAmbiguous data = false) :
+    RoundTrips protocolICMP v4DstUnreach 0 (.dstUnreach data []) none :=
+  dstUnreach_noext_roundtrip _ _ (by decide) (by decide) 0 (by omega) data h
+
+/-- **Length attribute overflow**: with extensions, a padded datagram of 1024 octets needs the length
+attribute 256, which is stored in one octet as 0; the parser then finds no extension structure where
+it looks and returns everything (datagram, extension header, object) as datagram, without extensions. -/
+theorem lengthAttr_witness :
+    ((mkMsg protocolICMP v4TimeExceeded 0 (.timeExceeded (zeros 1021) [.mpls 1 1 []])).marshal none).map
+        (fun w => (w.length, w.getD 5 99)) = some (8 + 1024 + 8, 0) ∧
+    (roundBody (mkMsg protocolICMP v4TimeExceeded 0 (.timeExceeded (zeros 1021) [.mpls 1 1 []]))).map
+        (fun b => match b with | .timeExceeded d es => (d.length, es.length) | _ => (0, 0)) = some (1032, 0) := by
+  decide +kernel
+
+/-- **ICMPv6 parameter problem drops extensions**: `Marshal` accepts them (no error), sizes the body for
+them, but writes none; the parsed message has no extensions and a zero-padded datagram. -/
+theorem paramprob_v6_exts_dropped :
+    roundBody (mkMsg protocolIPv6ICMP v6ParamProb 0 (.paramProb 7 [1, 2, 3] [.mpls 1 1 [⟨5, 0, true, 9⟩]])) =
+      some (.paramProb 7 ([1, 2, 3] ++ zeros (125 + 4 + 8)) []) := by
+  decide +kernel
 
 /-! ### Part E: `ipv4.Header` (Linux field order) -/
 
